@@ -67,6 +67,24 @@ def run(tier):
             if not (GE.close(mu, want_mu, yscale) and GE.close(mu2, want_mu, yscale) and GE.close(mu3, want_mu, yscale)):
                 ck.violation("predictive mean = m(q) + K_qx (K_xx + S)^-1 (y - m(x)) (point-wise, joint and mean-only calls agree)",
                              {**idn, **what, "want": want_mu, "call": mu, "build_posterior": mu2, "mean_only": mu3}, site="GpRegressor.mean")
+            if what["errors_given_as"] == "auto" and order is None:
+                # path independence: other hyper-parameters set (and used) in between, compared with a fresh regressor in the same state,
+                # then the original ones restored
+                try:
+                    gp.set_hyperparameters(hp + 0.37)
+                    mu_o, sd_o = gp(q)
+                    fresh, _, _ = GE.regressor(pb, variant, order)
+                    fresh.set_hyperparameters(hp + 0.37)
+                    mu_f, sd_f = fresh(q)
+                    gp.set_hyperparameters(hp)
+                    mu_r, sd_r = gp(q)
+                    if not (np.allclose(mu_o, mu_f, rtol=1e-10, atol=1e-12) and np.allclose(sd_o, sd_f, rtol=1e-10, atol=1e-12)
+                            and np.array_equal(np.asarray(mu_r), np.asarray(mu)) and np.array_equal(np.asarray(sd_r), np.asarray(sd))):
+                        ck.violation("predictions depend only on the data and the current hyper-parameters (not on hyper-parameters set and used before)",
+                                     {**idn, "after_change": mu_o, "fresh_regressor_same_state": mu_f, "first": mu, "after_restoring": mu_r},
+                                     site="GpRegressor.set_hyperparameters:stale-state")
+                except Exception as ex:
+                    ck.violation("GpRegressor raised on a valid problem", {**idn, **what, "error": repr(ex)[:300]}, site="GpRegressor")
             var = np.asarray(sd, dtype=float) ** 2
             if not (GE.close(var, np.diag(want_cov), scale) and GE.close(S2, want_cov, scale)):
                 ck.violation("predictive (co)variance = K_qq - K_qx (K_xx + S)^-1 K_xq",
